@@ -28,7 +28,7 @@ def run(ctx):
         c = ctx.replay['case']
         cases = [(c['prog'], c['inputs'])]
     else:
-        cases = gen_cases(ctx, 44 if ctx.quick else 700)
+        cases = gen_cases(ctx, 44 if ctx.quick else 350)
 
     def check(cs, label='shrink'):
         return S.param_check(ctx, label, cs, S.transform_param)
